@@ -78,7 +78,8 @@ class TrashDirsScanner:
         for user_info in self.user_info_provider.get_user_info(environ, uid):
             for path in user_info.home_trash_dir_paths:
                 yield trash_dir_found, TrashDir(path, '/')
-            for volume in self.volumes_listing.list_volumes(environ):
+            for volume in only_once(
+                    self.volumes_listing.list_volumes(environ)):
                 top_trash_dir_path = os.path.join(volume, '.Trash',
                                                   str(user_info.uid))
                 result = self.top_trash_dir_rules.valid_to_be_read(
@@ -95,6 +96,18 @@ class TrashDirsScanner:
                                                  '.Trash-%s' % user_info.uid)
                 if self.dir_checker.is_dir(alt_top_trash_dir):
                     yield trash_dir_found, TrashDir(alt_top_trash_dir, volume)
+
+
+def only_once(volumes):
+    # a mount point can be listed more than once (several devices or bind
+    # mounts on one directory, a TRASH_VOLUMES with repetitions or trailing
+    # slashes): its trash directories are still to be handled once
+    seen = set()
+    for volume in volumes:
+        key = os.path.normpath(volume)
+        if key not in seen:
+            seen.add(key)
+            yield volume
 
 
 def only_found(events, # type: Iterable[TrashDir]
